@@ -445,6 +445,8 @@ func c03Borrow(r *fw.Run, p *fw.Program) {
 	{
 		sc := r.Scratch()
 		c12Roots(sc, p)
+		c12Keys(sc, p)
+		r.Import(sc, "C12.keys", "C03.parentkey", "parent/child links agree at the jq observation point: the _parent key answers null exactly when Parent is nil and the parent's value otherwise (also for nested buffer roots, which are children of the field that holds them) (C12.keys obligation key:_parent)", 1, func(k string) bool { return k == "key:_parent" })
 		if dump {
 			c03DumpKeys(sc)
 		}
